@@ -34,6 +34,7 @@ class Consts (α : Type) where
   db       : α
   nodata   : α
   pi       : α
+  minGain  : α   -- 1e-100: floor of the LSP filter gain
 
 instance : NatCast Float := ⟨Float.ofNat⟩
 
@@ -58,6 +59,7 @@ instance : Consts Float where
   db       := Float.ofBits 0x3FBD791C5F888822
   nodata   := -10000000000.0
   pi       := Float.ofBits 0x400921FB54442D18
+  minGain  := Float.ofBits 0x2B2BFF2EE48E0530
 
 /-- Outcome of a modelled call: the Rust code either returns, returns an `Err`, or panics.
     Panics are values of the model so that "never panics" is a theorem about it. -/
